@@ -2,13 +2,41 @@
 
 package starlark
 
-// zzH10_smoke: Int.Add on small operands equals 64-bit addition.
-func zzH10_smoke() {
-	x, y := zzI32("x"), zzI32("y")
-	r := MakeInt64(int64(x)).Add(MakeInt64(int64(y)))
-	v, ok := r.Int64()
-	zzObserve("v", v)
-	zzAssert(zzAnd(ok, v == int64(x)+int64(y)), "C10.smoke.add")
+// H10.1: Add/Sub/Cmp/Sign/Not/Unary minus are exact for |x|,|y| < 2^B, through
+// the real constructors (both representations), result canonical.
+//
+//verif:unwind 40
+func zzH10_addsub() {
+	B := zzParam("bits", 66, 70)
+	x, xv := zzSymInt("x", B)
+	y, yv := zzSymInt("y", B)
+	sum, sc, ok1 := zzIntValue(x.Add(y))
+	zzAssert(ok1, "C10.add.width")
+	zzAssert(zzWEq(sum, zzWAdd(xv, yv)), "C10.add.exact")
+	zzAssert(sc, "C10.add.canonical")
+	dif, dc, ok2 := zzIntValue(x.Sub(y))
+	zzAssert(ok2, "C10.sub.width")
+	zzAssert(zzWEq(dif, zzWSub(xv, yv)), "C10.sub.exact")
+	zzAssert(dc, "C10.sub.canonical")
+	zzReach("end")
+}
+
+//verif:unwind 40
+func zzH10_cmpsign() {
+	B := zzParam("bits", 66, 70)
+	x, xv := zzSymInt("x", B)
+	y, yv := zzSymInt("y", B)
+	c, err := x.Cmp(y, 0)
+	zzAssert(err == nil, "C10.cmp.noerr")
+	want := zzIteInt(zzWLess(xv, yv), -1, zzIteInt(zzWEq(xv, yv), 0, 1))
+	zzObserve("cmp", c)
+	zzAssert(c == want, "C10.cmp.exact")
+	s := x.Sign()
+	zero := zzW{}
+	zzAssert(s == zzIteInt(zzWLess(xv, zero), -1, zzIteInt(zzWEq(xv, zero), 0, 1)), "C10.sign.exact")
+	n, nc, ok := zzIntValue(x.Not())
+	zzAssert(zzAnd(ok, nc), "C10.not.canonical")
+	zzAssert(zzWEq(n, zzWSub(zzWNeg(xv), zzW{0, 1})), "C10.not.exact")
 	zzReach("end")
 }
 
